@@ -77,7 +77,7 @@ class BackoffMessages {
     void Apply(float *const *const base, FILE *unigrams) {
       FinishedAdding();
       if (current_ == allocated_) return;
-      rewind(unigrams);
+      UTIL_THROW_IF(fseek(unigrams, 0, SEEK_SET), util::ErrnoException, "Flushing and seeking to the beginning of the unigrams failed.");
       ProbBackoff weights;
       WordIndex unigram = 0;
       ReadOrThrow(unigrams, &weights, sizeof(weights));
@@ -440,7 +440,7 @@ template <class Quant> void TrainProbQuantizer(uint8_t order, uint64_t count, Re
 void PopulateUnigramWeights(FILE *file, WordIndex unigram_count, RecordReader &contexts, UnigramValue *unigrams) {
   // Fill unigram probabilities.
   try {
-    rewind(file);
+    UTIL_THROW_IF(fseek(file, 0, SEEK_SET), util::ErrnoException, "Flushing and seeking to the beginning of the unigrams failed.");
     for (WordIndex i = 0; i < unigram_count; ++i) {
       ReadOrThrow(file, &unigrams[i].weights, sizeof(ProbBackoff));
       if (contexts && *reinterpret_cast<const WordIndex*>(contexts.Data()) == i) {
